@@ -10,6 +10,8 @@
 From DV Require Import Base.Prelude Base.Int Base.Lex Base.KeyShape Gen.Consts Gen.KeyClasses
      Model.Keys Model.KV Model.KVRange Proofs.Keys Proofs.KV Proofs.KVRange.
 From Coq Require Import Sorting.Sorted.
+(* the refinement tying this byte-level layer to the abstract core of C01 / C19 is built with C05 *)
+From DV Require Props.Refine.
 Local Open Scope N_scope.
 
 (* ---- 1. GetRange / ProcessRange over [lo, hi]  =  the point verdicts of the TKeys present in the
